@@ -24,11 +24,14 @@ signature.
 
 Open findings and why they are not repaired here:
 
-* **C08 nested anchors (two signatures, one cause).** `LiveEvents::record` clones every event into
-  every open recording frame and every finalised anchor keeps its own copy, so *d* anchors nested
-  around *n* nodes cost *d·n* events. A repair means sharing one recording buffer between nested
-  anchors (anchors as ranges into a shared, reference-counted buffer, replay by index) — a redesign
-  of the recording/replay data structure, not a minimal patch.
+* **C01 dev-profile stack exhaustion.** An unoptimised build needs 7-19 KiB of stack per nesting level
+  (capture_node / deserialize_any / visitor frames), so an 8 MiB stack overflows at 425-700 block levels
+  while `max_depth` is 2000; release builds handle 2000 and reject 2001. A repair means an iterative
+  capture path or a much lower default `max_depth` — not a minimal patch.
+* **C14 anchored block-scalar strings, C20 `LitStr("")` / `LitStr("\\n")`.** Small repairs exist (emit the
+  pending anchor before the block-scalar header; emit `""` for an empty literal), but existing tests
+  (`test_block_str::verdanta_case_fold`, `litstr_empty_string`, `litstr_only_newline`) pin the defective
+  output byte for byte, and the suite must pass unedited.
 * **C16 character offset after a non-ASCII directive line.** The character counter is advanced by
   byte counts inside `saphyr-parser` (`scan_directive_name` / directive parameters). serde-saphyr
   only forwards the mark; recomputing character offsets from byte offsets would cost O(n) per
